@@ -94,6 +94,16 @@ CHECKS = {
             "For each job the fault-free conversation is measured, then every (position, fault kind) pair is replayed in a child process with the fault armed inside the reference solver; outcomes are classified: verdict despite fault, panic, crash, mangled or misattributed error message, hang (solver gone or cpu burning past 1000x the fault-free time). Exhaustive over positions x kinds for the jobs executed.",
             "Jobs are deterministic so that positions found in the fault-free run are hit again; 8 (thorough: 96) jobs.",
             "DESIGN.md §4 C15"),
+    "C19": ("exploration",
+            "runtime monitor: every shipped rule instantiated over all width/sign assignments up to a bound, lowered with from_arith and compared by exhaustive evaluation; to_arith/from_arith round trip compared by evaluation",
+            "All width assignments in 1..=4/5 (1..=8/10 for left-shift-mult) x both signs of every rule are enumerated; where the rule's own eval_condition holds both sides are lowered with the real from_arith and evaluated on ALL operand values by the reference evaluator; above the bound widths up to 66 are sampled; the conversion round trip is compared by evaluation on generated expressions of the convertible fragment. Exhaustive within the stated scope, sampled above it.",
+            "Rule patterns are read through ArithRewrite::patterns(); operand values exhaustive (<= 15 bits) in the enumerated part.",
+            "DESIGN.md §4 C19"),
+    "C20": ("exploration",
+            "runtime invariant monitor through hook H1: partition and denotation of every summary after every operation, over all valuations of the guard terminals, against a denotational shadow",
+            "Operation histories over value summaries (new, apply_bin_op, apply_ite, coalesce, import_into_guard, expr_to_guard) with guard terminals that are comparisons, array reads and ites as well as 1-bit symbols; after every operation exactly one entry guard must hold under each of the 2^t terminal valuations and its value must equal the harness-side denotation; expr_to_guard is compared with the specification and the reference evaluator. Exhaustive over valuations for the histories executed.",
+            "Hook H1 exposes entries and guard evaluation read-only; at most 6 terminals per history.",
+            "DESIGN.md §4 C20"),
 }
 
 NOT_YET = {}
